@@ -120,7 +120,7 @@ class UMNDirHandler(DirHandler):
                 self.fileentries.append(linkentry)
                 continue
             if linkentry.selector in fileentriesdict:
-                if linkentry.gettype() == "X":
+                if linkentry.gettype() in ("X", "-"):
                     # It's special code to hide something.  Another block
                     # may have hidden the same file already.
                     hidden = fileentriesdict[linkentry.selector]
